@@ -674,3 +674,83 @@ impl Meta {
         Ok(())
     }
 }
+
+
+/// C04 on frameworks beyond the brute-force oracle: certificates are judged by polynomial
+/// necessary conditions (conflict-free; complete for CO/PR/SST/ID; stable for ST; contains / omits
+/// the argument; members are the framework's own arguments, once each; present exactly when promised).
+pub fn certificates_on_big(case: &MetaCase) -> Result<(usize, usize), Failure> {
+    let g = assemble(case);
+    if g.n == 0 || g.n > 320 {
+        return Ok((0, 0));
+    }
+    let adj = Adj::new(&g);
+    let queried: Vec<usize> = {
+        let mut q: Vec<usize> = case.queried.iter().map(|r| idx(*r, g.n)).collect();
+        q.sort();
+        q.dedup();
+        q
+    };
+    let p = Presented::new(g.clone());
+    let text = p.text();
+    let af = Iccma23Reader::default().read(&mut text.as_bytes()).map_err(|e| Failure::new("C04/big/reader-rejected-generated-file", e.to_string()))?;
+    let mut checked = 0;
+    for sem in ALL_SEMS {
+        for q in [Q::DC, Q::DS] {
+            let encs = encodings_for(q, sem);
+            let enc = encs[case.enc_pick as usize % encs.len()];
+            let enc = if enc == Enc::ExpCo { Enc::AuxCo } else { enc };
+            for &a in &queried {
+                let sig = format!("C04/big/{}-{}/{}", q.name(), sem.name(), enc.name());
+                let shared = Shared::new(20_000);
+                let lab = a + 1;
+                let (status, cert) = guard(|| {
+                    let mut s = SolverObj::new(&af, kind_for(q, sem), enc, satwrap::factory(&shared));
+                    if q == Q::DC {
+                        s.dc(&[&lab], true)
+                    } else {
+                        s.ds(&[&lab], true)
+                    }
+                })
+                .map_err(|p| Failure::new(format!("{}/panic", sig), p))?;
+                let promised = if q == Q::DC { status } else { !status };
+                match (promised, cert) {
+                    (false, None) => {}
+                    (false, Some(_)) => return Err(Failure::new(format!("{}/unexpected-certificate", sig), format!("argument {} of {}", lab, g.n))),
+                    (true, None) => return Err(Failure::new(format!("{}/missing-certificate", sig), format!("argument {} of {}", lab, g.n))),
+                    (true, Some(c)) => {
+                        let mut set = vec![false; g.n];
+                        for m in &c {
+                            let i = m.label - 1;
+                            let own = af.argument_set().get_argument(&m.label).map(|x| x.id()).ok();
+                            if m.label == 0 || i >= g.n || set[i] || own != Some(m.id) {
+                                return Err(Failure::new(format!("{}/foreign-or-duplicate-member", sig), format!("member {} (id {})", m.label, m.id)));
+                            }
+                            set[i] = true;
+                        }
+                        let ok = match sem {
+                            Sem::ST => adj.stable(&set),
+                            Sem::STG => adj.conflict_free(&set),
+                            _ => adj.complete(&set),
+                        };
+                        if !ok {
+                            return Err(Failure::new(
+                                format!("{}/certificate-violates-a-necessary-condition", sig),
+                                format!("argument {}: certificate {:?}\n{}", lab, c.iter().map(|m| m.label).collect::<Vec<_>>(), text),
+                            ));
+                        }
+                        if (q == Q::DC) != set[a] {
+                            return Err(Failure::new(format!("{}/certificate-membership-wrong", sig), format!("argument {}\n{}", lab, text)));
+                        }
+                        checked += 1;
+                    }
+                }
+            }
+        }
+    }
+    Ok((g.n, checked))
+}
+
+pub fn meta_strategy(tier: Tier) -> BoxedStrategy<MetaCase> {
+    Meta.strategy(tier)
+}
